@@ -4,7 +4,8 @@ import Fs.Model.Tx
 
 Request:  `tx  run  <shared 0|1>  <init>  <events>`
   init   := tables separated by `|`, each a `,`-separated list of `k.v` rows (or empty)
-  events := `;`-separated: `C` connect(database, schema) · `Cn` connect() without database/schema · `K<c>` conn.cursor() · `X<k>:<stmt>` cursor k executes ·
+  events := `;`-separated: `C` connect(database, schema) · `Cn` connect() without database/schema · `K<c>` conn.cursor() · `Kt<c>` conn.cursor() called on another thread · `Wn<c>`/`We<c>` a `with conn:` block of
+            connection c ends normally / by an exception · `X<k>:<stmt>` cursor k executes ·
             `M<c>` conn.commit() · `R<c>` conn.rollback()
   stmt   := `b` BEGIN · `c` COMMIT · `r` ROLLBACK · `s<t>` select · `i<t>.<k>.<v>` · `d<t>.<k>` · `u<t>.<k>.<v>` ·
             `ft` missing table · `fc` missing column · `fr` run-time failure · `fm` MERGE whose clause fails to bind · `k` SELECT 1
@@ -46,7 +47,8 @@ def parseEv (s : String) : Option Ev :=
   let tl := (s.drop 1).toString
   match s.front with
   | 'C' => some (.connect (tl != "n"))
-  | 'K' => tl.toNat?.map .cursor
+  | 'K' => if tl.front == 't' then (tl.drop 1).toString.toNat?.map (.cursor · true) else tl.toNat?.map (.cursor · false)
+  | 'W' => ((tl.drop 1).toString.toNat?).map (.blockExit · (tl.front == 'e'))
   | 'M' => tl.toNat?.map .connCommit
   | 'R' => tl.toNat?.map .connRollback
   | 'X' => match tl.splitOn ":" with
